@@ -34,6 +34,7 @@ type agg struct {
 	wall        time.Duration
 	witnesses   int
 	selftest    string
+	causal      string
 	reconfirmed []string
 }
 
@@ -141,6 +142,8 @@ func (a *agg) write(path string, src source) error {
 			"probes":                     a.probes,
 			"generator_configurations":   a.configs,
 			"known_findings_met":         a.known,
+			"determinism_selftest":       a.selftest,
+			"known_finding_causal_tests": a.causal,
 			"real_vs_stub": map[string]string{
 				"go-snaps packages snaps, match, internal/*, all third-party deps": "real code of /repo's working tree, function bodies untouched",
 				"testing runner (-run, -count, t.Run, Cleanup, SkipNow)":           "real in runner lifetimes; SimT stub in scheduled (tasks) lifetimes",
